@@ -155,6 +155,38 @@ inline size_t Reallocate(int **array, size_t len) {
   return llen;
 }
 
+/** Copies the first len bytes of an encoded bucket header without reading
+    past the end of the text that stores it (a header close to the end may
+    be shorter than the pattern it is compared with); the remaining bytes are
+    set to zero.
+    @param dst: destination buffer (at least len bytes).
+    @param header: pointer to the encoded header.
+    @param textEnd: pointer to the end of the text storing the header.
+    @param len: number of bytes required.
+*/
+inline void copyHeader(uchar *dst, const uchar *header, const uchar *textEnd,
+                       uint len) {
+  size_t avail = (size_t)(textEnd - header);
+  uint n = (len < avail) ? len : (uint)avail;
+  memcpy(dst, header, n);
+  if (n < len)
+    memset(dst + n, 0, len - n);
+}
+
+/** Compares an encoded bucket header with an encoded string as memcmp does,
+    without reading past the end of the text that stores the header (the
+    missing bytes count as zero).
+*/
+inline int compareHeader(const uchar *header, const uchar *textEnd,
+                         const uchar *str, uint len) {
+  size_t avail = (size_t)(textEnd - header);
+  uint n = (len < avail) ? len : (uint)avail;
+  int cmp = memcmp(header, str, n);
+  for (uint i = n; (cmp == 0) && (i < len); i++)
+    cmp = -(int)str[i];
+  return cmp;
+}
+
 inline int longestCommonPrefix(const uchar *str1, const uchar *str2,
                                uint length, uint *lcp) {
   uint ptr = 0;
